@@ -557,7 +557,7 @@ def run(ctx):
     if not binp:
         return
     r = ctx.rng
-    ncases = 6000 if ctx.thorough else 320
+    ncases = 3000 if ctx.thorough else 240
     cases = []
     for i in range(ncases):
         c = gen_case(r, i, ctx.thorough)
@@ -660,7 +660,7 @@ def run(ctx):
                 "Eval vm_compute in (mismatches c_check cases).\n" % ";\n ".join(items))
 
     clean = [p for p in pairs if not any(ob[0] == "bad" for ob in p[1])]
-    outs, chunks = vlib.coq_eval_sharded(ctx, "c29", COQ_HEADER, clean, render, shard=12 if not ctx.thorough else 40)
+    outs, chunks = vlib.coq_eval_sharded(ctx, "c29", COQ_HEADER, clean, render, shard=30 if not ctx.thorough else 60)
     mism, base = [], 0
     for (rc, o), ch in zip(outs, chunks):
         v = vlib.parse_coq_value(o) if rc == 0 else None
